@@ -1,5 +1,610 @@
-(* Properties_C19.v -- placeholder while the proofs are being developed (replaced below). *)
-From Amgcl Require Import MMFormat BinFormat.
-Theorem C19_placeholder : mm_current <> mm_checked.
-Proof. discriminate. Qed.
-Print Assumptions C19_placeholder.
+(* Properties_C19.v -- C19: matrix/vector files round-trip exactly; bad files fail cleanly.
+   Statements only; proofs live in IoProofsMM.v / IoProofsBin.v / IoProofs.v, models in
+   MMFormat.v (MatrixMarket, over lines of tokens; value text conversion is an ORACLE pair
+   vprint/vread whose only law, vread (vprint v ++ rest) = Some (v, rest), is a hypothesis of
+   the round-trip theorems alone) and BinFormat.v (binary, over byte lists, no oracle).
+
+   Readers come in two versions selected by flags: the code as it is (mm_current /
+   read_crs false) and the repaired code (mm_checked / read_crs true).  The safety part of
+   the property (A5) is REFUTED for the current readers (theorems named ..._refuted, each a concrete
+   damaged file, replayed on the real code under AddressSanitizer by tools/props/C19.py)
+   and PROVED for the repaired readers (theorems named ..._checked_safe): that is the target the fixed code
+   must meet; the correspondence is switched to it by the flags at the top of C19.py.
+   Error EOOB is the model-level image of an out-of-bounds access (all indexing in the models
+   goes through bounds-checked accessors), so "never EOOB" is a theorem, not an artefact. *)
+From Coq Require Import List ZArith String.
+From Amgcl Require Import IoProofs.
+Import ListNotations.
+
+(* integers as text (sizes, indices, integer values): parse (print z) = z -- concrete, no oracle *)
+Theorem C19_int_text_roundtrip :
+  forall (z : Z) (rest : list string),
+         (- two63 <= z < two63)%Z ->
+         read_int true (print_Z z :: rest) = Some (z, rest).
+Proof. exact read_int_print_signed. Qed.
+Print Assumptions C19_int_text_roundtrip.
+
+(* the value-oracle law is a THEOREM for integer matrices *)
+Theorem C19_int_value_oracle_law :
+  forall (bits z : Z) (rest : list string),
+         (0 < bits <= 64)%Z ->
+         (- 2 ^ (bits - 1) <= z < 2 ^ (bits - 1))%Z ->
+         vread_int bits (vprint_int z ++ rest) = Some (z, rest).
+Proof. exact vread_int_vprint_int. Qed.
+Print Assumptions C19_int_value_oracle_law.
+
+(* ... and is inherited by complex values from the scalar oracle *)
+Theorem C19_complex_value_oracle_law :
+  forall (R : Type) (rprint : R -> string)
+           (rread : list string -> option (R * list string)),
+         (forall (x : R) (rest : list string),
+          rread (rprint x :: rest) = Some (x, rest)) ->
+         forall (z : R * R) (rest : list string),
+         vread_complex R rread (vprint_complex R rprint z ++ rest) =
+         Some (z, rest).
+Proof. exact vread_complex_vprint_complex. Qed.
+Print Assumptions C19_complex_value_oracle_law.
+
+(* detail::sort_row (insertion sort as coded) returns a sorted permutation *)
+Theorem C19_sort_row_spec :
+  forall (V : Type) (r : list (Z * V)),
+         Permutation.Permutation r (sort_row r) /\
+         Sorted.StronglySorted (fun a b : Z * V => (fst a <= fst b)%Z)
+           (sort_row r).
+Proof. exact sort_row_perm_sorted. Qed.
+Print Assumptions C19_sort_row_spec.
+
+(* A1: mm_read (mm_write A) = Ok (sort_rows A), any flags (current and repaired reader) *)
+Theorem C19_mm_roundtrip :
+  forall (V : Type) (vwidth : Z) (vprint : V -> list string)
+           (vread : list string -> option (V * list string)),
+         (forall (v : V) (rest : list string),
+          vread (vprint v ++ rest) = Some (v, rest)) ->
+         forall (fl : mm_flags) (k : kind) (A : crs V),
+         wf A = true ->
+         nrows A = Z.of_nat (Datatypes.length (rows A)) ->
+         (0 <= ncols A < two63)%Z ->
+         alloc_ok (nnz A) 8 = true ->
+         alloc_ok (nnz A) vwidth = true ->
+         alloc_ok (nrows A + 1) 8 = true ->
+         mm_read V vwidth vread fl k (mm_write_sparse V vprint k A) (-1) (-1) =
+         Ok (sort_rows A).
+Proof. exact mm_read_write_roundtrip. Qed.
+Print Assumptions C19_mm_roundtrip.
+
+(* A1+A2 on written files *)
+Theorem C19_mm_roundtrip_range :
+  forall (V : Type) (vwidth : Z) (vprint : V -> list string)
+           (vread : list string -> option (V * list string)),
+         (forall (v : V) (rest : list string),
+          vread (vprint v ++ rest) = Some (v, rest)) ->
+         forall (fl : mm_flags) (k : kind) (A : crs V) (r0 r1 : Z),
+         wf A = true ->
+         nrows A = Z.of_nat (Datatypes.length (rows A)) ->
+         (0 <= ncols A < two63)%Z ->
+         alloc_ok (nnz A) 8 = true ->
+         alloc_ok (nnz A) vwidth = true ->
+         alloc_ok (nrows A + 1) 8 = true ->
+         (0 <= r0)%Z ->
+         (r0 <= r1)%Z ->
+         (r1 <= nrows A)%Z ->
+         mm_read V vwidth vread fl k (mm_write_sparse V vprint k A) r0 r1 =
+         Ok (slice r0 r1 (sort_rows A)).
+Proof. exact mm_read_write_range_roundtrip. Qed.
+Print Assumptions C19_mm_roundtrip_range.
+
+(* A1 dense vector/array variant *)
+Theorem C19_mm_dense_roundtrip :
+  forall (V : Type) (vwidth : Z) (vprint : V -> list string)
+           (vread : list string -> option (V * list string)),
+         (forall (v : V) (rest : list string),
+          vread (vprint v ++ rest) = Some (v, rest)) ->
+         forall (fl : mm_flags) (k : kind) (nr nc : Z) (data : list V),
+         (0 <= nr < two63)%Z ->
+         (0 <= nc < two63)%Z ->
+         Datatypes.length data = Z.to_nat (nr * nc) ->
+         alloc_ok (nr * nc) vwidth = true ->
+         exists f : list line,
+           mm_write_dense V vprint k nr nc data = Ok f /\
+           mm_readd V vwidth vread fl k f (-1) (-1) =
+           Ok {| d_rows := nr; d_cols := nc; d_val := map Some data |}.
+Proof. exact mm_readd_write_roundtrip. Qed.
+Print Assumptions C19_mm_dense_roundtrip.
+
+(* A2: for ANY file and ANY value oracle, a row-range read is the slice of the full read *)
+Theorem C19_mm_range_is_slice :
+  forall (V : Type) (vwidth : Z)
+           (vread : list string -> option (V * list string)) 
+           (fl : mm_flags) (vk : kind) (f : list line) 
+           (r0 r1 : Z) (A : crs V),
+         mm_read V vwidth vread fl vk f (-1) (-1) = Ok A ->
+         (0 <= r0)%Z ->
+         (r0 <= r1)%Z ->
+         (r1 <= nrows A)%Z ->
+         mm_read V vwidth vread fl vk f r0 r1 = Ok (slice r0 r1 A).
+Proof. exact mm_read_range_is_slice. Qed.
+Print Assumptions C19_mm_range_is_slice.
+
+(* A3: symmetric storage is expanded (independent specification expand_row) *)
+Theorem C19_mm_symmetric_expands :
+  forall (V : Type) (vwidth : Z) (vprint : V -> list string)
+           (vread : list string -> option (V * list string)),
+         (forall (v : V) (rest : list string),
+          vread (vprint v ++ rest) = Some (v, rest)) ->
+         forall (fl : mm_flags) (k : kind) (n : Z) (L : list (Z * Z * V)),
+         (0 <= n < two63)%Z ->
+         good_entries V n n L ->
+         alloc_ok (2 * Z.of_nat (Datatypes.length L)) 8 = true ->
+         alloc_ok (2 * Z.of_nat (Datatypes.length L)) vwidth = true ->
+         alloc_ok (n + 1) 8 = true ->
+         mm_read V vwidth vread fl k
+           ({|
+              l_comment := true;
+              l_toks :=
+                "%%MatrixMarket"%string
+                :: "matrix"%string
+                   :: "coordinate"%string
+                      :: kind_word k :: "symmetric"%string :: nil
+            |}
+            :: {|
+                 l_comment := false;
+                 l_toks :=
+                   print_Z n
+                   :: print_Z n
+                      :: print_Z (Z.of_nat (Datatypes.length L)) :: nil
+               |} :: gen_lines V vprint L) (-1) (-1) =
+         Ok
+           {|
+             nrows := n;
+             ncols := n;
+             rows :=
+               map (fun r : nat => sort_row (expand_row V true (Z.of_nat r) L))
+                 (seq 0 (Z.to_nat n))
+           |}.
+Proof. exact mm_read_symmetric_expands. Qed.
+Print Assumptions C19_mm_symmetric_expands.
+
+(* A3: off-diagonal entries mirrored, diagonal entries once *)
+Theorem C19_mm_symmetric_diag_once :
+  forall (V : Type) (i j : Z) (v : V),
+         expand_row V true i ((i, i, v) :: nil) = (i, v) :: nil /\
+         (i <> j ->
+          expand_row V true i ((i, j, v) :: nil) = (j, v) :: nil /\
+          expand_row V true j ((i, j, v) :: nil) = (i, v) :: nil) /\
+         (forall r : Z,
+          r <> i -> r <> j -> expand_row V true r ((i, j, v) :: nil) = nil) /\
+         expand_row V false i ((i, j, v) :: nil) = (j, v) :: nil /\
+         (i <> j -> expand_row V false j ((i, j, v) :: nil) = nil).
+Proof. exact mm_symmetric_diag_once. Qed.
+Print Assumptions C19_mm_symmetric_diag_once.
+
+(* A4: fewer data lines than announced => exception (never Ok, never out of bounds), any range, any flags *)
+Theorem C19_mm_truncated_is_error :
+  forall (V : Type) (vwidth : Z)
+           (vread : list string -> option (V * list string)) 
+           (fl : mm_flags) (vk : kind) (h : header) 
+           (rb re n m nz : Z) (t1 t2 t3 : list string),
+         read_int true (h_size h) = Some (n, t1) ->
+         read_int true t1 = Some (m, t2) ->
+         read_int false t2 = Some (nz, t3) ->
+         (Z.of_nat (Datatypes.length (h_body h)) < nz)%Z ->
+         exists e : err,
+           mm_read_sparse V vwidth vread fl vk h rb re = Error e /\ e <> EOOB.
+Proof. exact mm_truncated_is_error. Qed.
+Print Assumptions C19_mm_truncated_is_error.
+
+(* A4: a written file cut before its last (any) line => exception *)
+Theorem C19_mm_write_truncated_is_error :
+  forall (V : Type) (vwidth : Z) (vprint : V -> list string)
+           (vread : list string -> option (V * list string)) 
+           (fl : mm_flags) (k : kind) (A : crs V) (j : nat) 
+           (rb re : Z),
+         nrows A = Z.of_nat (Datatypes.length (rows A)) ->
+         (0 <= ncols A < two63)%Z ->
+         alloc_ok (nnz A) 8 = true ->
+         alloc_ok (nrows A + 1) 8 = true ->
+         j < Datatypes.length (mm_write_sparse V vprint k A) ->
+         is_exception
+           (mm_read V vwidth vread fl k
+              (firstn j (mm_write_sparse V vprint k A)) rb re) = true.
+Proof. exact mm_write_truncated_is_error. Qed.
+Print Assumptions C19_mm_write_truncated_is_error.
+
+(* A4: wrong banner word *)
+Theorem C19_mm_bad_banner_is_error :
+  forall (b : line) (rest : list line)
+           (banner mtx coord dtype storage : string) 
+           (tl : list string),
+         l_toks b = banner :: mtx :: coord :: dtype :: storage :: tl ->
+         banner <> "%%MatrixMarket"%string \/
+         mtx <> "matrix"%string \/
+         storage <> "general"%string /\ storage <> "symmetric"%string \/
+         coord <> "coordinate"%string /\ coord <> "array"%string \/
+         dtype <> "real"%string /\
+         dtype <> "complex"%string /\ dtype <> "integer"%string ->
+         mm_open (b :: rest) = Error EFormat.
+Proof. exact mm_bad_banner_is_error. Qed.
+Print Assumptions C19_mm_bad_banner_is_error.
+
+Theorem C19_mm_short_banner_is_error :
+  forall (b : line) (rest : list line),
+         Datatypes.length (l_toks b) < 5 -> mm_open (b :: rest) = Error EFormat.
+Proof. exact mm_short_banner_is_error. Qed.
+Print Assumptions C19_mm_short_banner_is_error.
+
+Theorem C19_mm_empty_file_is_error :
+  mm_open nil = Error EFormat.
+Proof. exact mm_empty_file_is_error. Qed.
+Print Assumptions C19_mm_empty_file_is_error.
+
+(* A4: wrong value kind *)
+Theorem C19_mm_wrong_kind_is_error :
+  forall (V : Type) (vwidth : Z)
+           (vread : list string -> option (V * list string)) 
+           (fl : mm_flags) (vk : kind) (h : header) 
+           (rb re : Z),
+         h_sparse h = true ->
+         kind_complex vk <> kind_complex (h_kind h) \/
+         kind_integer vk <> kind_integer (h_kind h) ->
+         mm_read_sparse V vwidth vread fl vk h rb re = Error EKind.
+Proof. exact mm_wrong_kind_is_error. Qed.
+Print Assumptions C19_mm_wrong_kind_is_error.
+
+(* A4 (repaired reader): inconsistent sizes -- an index outside the announced shape => exception *)
+Theorem C19_mm_checked_index_is_error :
+  forall (V : Type) (vread : list string -> option (V * list string))
+           (fl : mm_flags) (symm : bool) (n m r0 r1 : Z) 
+           (pre : list line) (l : line) (ls : list line) 
+           (k : Z) (st st' : list (list (Z * V))) (rest' : list line) 
+           (i1 : Z) (t1 : list string) (j1 : Z) (t2 : list string) 
+           (v : V) (t3 : list string),
+         chk_index fl = true ->
+         Datatypes.length st = Z.to_nat (r1 - r0) ->
+         (Z.of_nat (Datatypes.length pre) < k)%Z ->
+         read_entries V vread fl symm n m r0 r1 pre
+           (Z.of_nat (Datatypes.length pre)) st = Ok (st', rest') ->
+         read_int true (l_toks l) = Some (i1, t1) ->
+         read_int true t1 = Some (j1, t2) ->
+         vread t2 = Some (v, t3) ->
+         ~ ((0 <= i1 - 1 < n)%Z /\ (0 <= j1 - 1 < m)%Z) ->
+         read_entries V vread fl symm n m r0 r1 (pre ++ l :: ls) k st =
+         Error EFormat.
+Proof. exact mm_checked_index_out_of_range_is_error_at. Qed.
+Print Assumptions C19_mm_checked_index_is_error.
+
+(* A4 (repaired reader): more data than announced => exception *)
+Theorem C19_mm_checked_trailing_is_error :
+  forall (V : Type) (vwidth : Z)
+           (vread : list string -> option (V * list string)) 
+           (fl : mm_flags) (vk : kind) (h : header) 
+           (rb re n m nz r0 r1 : Z) (st : list (list (Z * V)))
+           (rest : list line),
+         chk_trailing fl = true ->
+         sparse_pre vwidth fl vk h rb re = Ok (n, m, nz, r0, r1) ->
+         read_entries V vread fl (h_symmetric h) n m r0 r1 
+           (h_body h) nz (repeat nil (Z.to_nat (r1 - r0))) = 
+         Ok (st, rest) ->
+         forallb blank rest = false ->
+         mm_read_sparse V vwidth vread fl vk h rb re = Error EFormat.
+Proof. exact mm_checked_trailing_is_error. Qed.
+Print Assumptions C19_mm_checked_trailing_is_error.
+
+(* A5 TARGET for the repaired reader: every file, every value oracle, every range: exception or wf matrix, never out of bounds *)
+Theorem C19_mm_read_checked_safe :
+  forall (V : Type) (vwidth : Z)
+           (vread : list string -> option (V * list string)) 
+           (vk : kind) (f : list line) (r0 r1 : Z),
+         match mm_read V vwidth vread mm_checked vk f r0 r1 with
+         | Ok A => wf A = true
+         | Error e => e <> EOOB
+         end.
+Proof. exact mm_read_checked_safe. Qed.
+Print Assumptions C19_mm_read_checked_safe.
+
+(* A5 dense, repaired reader *)
+Theorem C19_mm_readd_checked_safe :
+  forall (V : Type) (vwidth : Z)
+           (vread : list string -> option (V * list string)) 
+           (vk : kind) (f : list line) (r0 r1 : Z),
+         match mm_readd V vwidth vread mm_checked vk f r0 r1 with
+         | Ok d =>
+             Datatypes.length (d_val V d) = Z.to_nat (d_rows V d * d_cols V d)
+         | Error e => e <> EOOB
+         end.
+Proof. exact mm_readd_checked_safe. Qed.
+Print Assumptions C19_mm_readd_checked_safe.
+
+(* what does hold for the CURRENT reader: no out-of-bounds access for 0 <= row_beg <= row_end *)
+Theorem C19_mm_read_no_oob_proper_range :
+  forall (V : Type) (vwidth : Z)
+           (vread : list string -> option (V * list string)) 
+           (fl : mm_flags) (vk : kind) (f : list line) 
+           (rb re : Z),
+         (0 <= rb)%Z ->
+         (rb <= re)%Z -> mm_read V vwidth vread fl vk f rb re <> Error EOOB.
+Proof. exact mm_read_no_oob_proper_range. Qed.
+Print Assumptions C19_mm_read_no_oob_proper_range.
+
+(* ... and for the default range unless the file announces nrows = -1 *)
+Theorem C19_mm_read_current_no_oob_default_range :
+  forall (V : Type) (vwidth : Z)
+           (vread : list string -> option (V * list string)) 
+           (fl : mm_flags) (vk : kind) (f : list line) 
+           (rb re : Z),
+         (rb < 0)%Z ->
+         (re < 0)%Z ->
+         mm_read V vwidth vread fl vk f rb re = Error EOOB ->
+         exists (h : header) (t1 : list string),
+           mm_open f = Ok h /\ read_int true (h_size h) = Some ((-1)%Z, t1).
+Proof. exact mm_read_current_no_oob_default_range. Qed.
+Print Assumptions C19_mm_read_current_no_oob_default_range.
+
+(* A5 REFUTED for the current reader: damaged file (column digit 2 -> 9) is accepted, result not wf *)
+Theorem C19_mm_read_safe_refuted :
+  exists (f : list line) (A : crs string),
+           mm_read string 8
+             (fun ts : list string =>
+              match ts with
+              | nil => None
+              | t :: r => Some (t, r)
+              end) mm_current KReal f (-1) (-1) = Ok A /\ 
+           wf A = false.
+Proof. exact mm_read_safe_refuted. Qed.
+Print Assumptions C19_mm_read_safe_refuted.
+
+(* A4 refuted (current): row index 9 > nrows: entry silently dropped *)
+Theorem C19_mm_read_row_dropped_refuted :
+  mm_read string 8 vread_tok mm_current KReal mm_damaged_row (-1) (-1) =
+         Ok
+           {|
+             nrows := 3;
+             ncols := 3;
+             rows :=
+               ((0%Z, "1.0"%string) :: nil)
+               :: nil :: ((2%Z, "3.0"%string) :: nil) :: nil
+           |}.
+Proof. exact mm_read_row_dropped_refuted. Qed.
+Print Assumptions C19_mm_read_row_dropped_refuted.
+
+(* the repaired reader rejects both witnesses *)
+Theorem C19_mm_read_checked_rejects_damaged :
+  mm_read string 8 vread_tok mm_checked KReal mm_damaged_col (-1) (-1) =
+         Error EFormat /\
+         mm_read string 8 vread_tok mm_checked KReal mm_damaged_row (-1) (-1) =
+         Error EFormat.
+Proof. exact mm_read_checked_rejects_damaged. Qed.
+Print Assumptions C19_mm_read_checked_rejects_damaged.
+
+(* A5 refuted (current): row_beg = 4 > n = 3: ptr.back() of an empty vector *)
+Theorem C19_mm_read_range_oob_refuted :
+  exists f : list line,
+           mm_read string 8 vread_tok mm_current KReal f 4 (-1) = Error EOOB.
+Proof. exact mm_read_range_oob_refuted. Qed.
+Print Assumptions C19_mm_read_range_oob_refuted.
+
+(* A5 refuted (current): size line '-1 1 0', default range *)
+Theorem C19_mm_read_negative_n_oob_refuted :
+  exists f : list line,
+           mm_read string 8 vread_tok mm_current KReal f (-1) (-1) = Error EOOB.
+Proof. exact mm_read_negative_n_oob_refuted. Qed.
+Print Assumptions C19_mm_read_negative_n_oob_refuted.
+
+(* A5 refuted (current, dense): size line '-3 -2' accepted, 6 never-written values *)
+Theorem C19_mm_readd_safe_refuted :
+  exists (f : list line) (d : dense string),
+           mm_readd string 8 vread_tok mm_current KReal f (-1) (-1) = Ok d /\
+           Datatypes.length (d_val string d) <>
+           Z.to_nat (d_rows string d * d_cols string d) /\
+           d_val string d = repeat None 6.
+Proof. exact mm_readd_safe_refuted. Qed.
+Print Assumptions C19_mm_readd_safe_refuted.
+
+(* A4 refuted (current): data beyond the announced count is ignored; the repaired reader throws *)
+Theorem C19_mm_trailing_example :
+  mm_read string 8 vread_tok mm_current KReal mm_trailing (-1) (-1) =
+         Ok
+           {|
+             nrows := 1;
+             ncols := 1;
+             rows := ((0%Z, "1.0"%string) :: nil) :: nil
+           |} /\
+         mm_read string 8 vread_tok mm_checked KReal mm_trailing (-1) (-1) =
+         Error EFormat.
+Proof. exact mm_trailing_example. Qed.
+Print Assumptions C19_mm_trailing_example.
+
+(* little-endian words *)
+Theorem C19_bin_word_roundtrip :
+  forall x : Z, (- two63 <= x < two63)%Z -> sdec (enc8 x) = x.
+Proof. exact sdec_enc8. Qed.
+Print Assumptions C19_bin_word_roundtrip.
+
+(* A1 binary: read (write A) = A with every row sorted (read_crs sorts), byte-exact values *)
+Theorem C19_bin_roundtrip :
+  forall (checked n_signed : bool) (vw : Z) (A : flat),
+         (0 < vw)%Z ->
+         wf_flat A = true ->
+         f_n A = (Z.of_nat (Datatypes.length (f_ptr A)) - 1)%Z ->
+         Forall (fun e : Z * list Z => Datatypes.length (snd e) = Z.to_nat vw)
+           (f_cv A) ->
+         Forall (fun e : Z * list Z => (- two63 <= fst e < two63)%Z) (f_cv A) ->
+         alloc_ok (f_n A + 1) 8 = true ->
+         alloc_ok (Z.of_nat (Datatypes.length (f_cv A))) 8 = true ->
+         alloc_ok (Z.of_nat (Datatypes.length (f_cv A))) vw = true ->
+         exists cv' : list (Z * list Z),
+           sort_all (f_ptr A) (f_cv A) = Ok cv' /\
+           read_crs checked n_signed vw (write_crs A) (-1) (-1) =
+           Ok {| f_n := f_n A; f_ptr := f_ptr A; f_cv := cv' |}.
+Proof. exact bin_read_write_roundtrip. Qed.
+Print Assumptions C19_bin_roundtrip.
+
+(* A1 binary: sorted rows => read (write A) = Ok A *)
+Theorem C19_bin_roundtrip_sorted :
+  forall (checked n_signed : bool) (vw : Z) (A : flat),
+         (0 < vw)%Z ->
+         wf_flat A = true ->
+         f_n A = (Z.of_nat (Datatypes.length (f_ptr A)) - 1)%Z ->
+         Forall (fun e : Z * list Z => Datatypes.length (snd e) = Z.to_nat vw)
+           (f_cv A) ->
+         Forall (fun e : Z * list Z => (- two63 <= fst e < two63)%Z) (f_cv A) ->
+         alloc_ok (f_n A + 1) 8 = true ->
+         alloc_ok (Z.of_nat (Datatypes.length (f_cv A))) 8 = true ->
+         alloc_ok (Z.of_nat (Datatypes.length (f_cv A))) vw = true ->
+         sort_all (f_ptr A) (f_cv A) = Ok (f_cv A) ->
+         read_crs checked n_signed vw (write_crs A) (-1) (-1) = Ok A.
+Proof. exact bin_read_write_roundtrip_sorted. Qed.
+Print Assumptions C19_bin_roundtrip_sorted.
+
+Theorem C19_bin_dense_roundtrip :
+  forall (checked n_signed : bool) (vw n m : Z) (v : list (list Z)),
+         (0 < vw)%Z ->
+         (0 <= n < two63)%Z ->
+         (0 <= m < two63)%Z ->
+         Datatypes.length v = Z.to_nat (n * m) ->
+         Forall (fun g : list Z => Datatypes.length g = Z.to_nat vw) v ->
+         alloc_ok (n * m) vw = true ->
+         read_dense checked n_signed vw (write_dense n m v) (-1) (-1) =
+         Ok {| bd_n := n; bd_m := m; bd_val := v |}.
+Proof. exact bin_readd_write_roundtrip. Qed.
+Print Assumptions C19_bin_dense_roundtrip.
+
+(* A2 binary (seek-based partial read) *)
+Theorem C19_bin_range_is_slice :
+  forall (checked n_signed : bool) (vw : Z) (A : flat) (r0 r1 : Z),
+         (0 < vw)%Z ->
+         wf_flat A = true ->
+         f_n A = (Z.of_nat (Datatypes.length (f_ptr A)) - 1)%Z ->
+         Forall (fun e : Z * list Z => Datatypes.length (snd e) = Z.to_nat vw)
+           (f_cv A) ->
+         Forall (fun e : Z * list Z => (- two63 <= fst e < two63)%Z) (f_cv A) ->
+         alloc_ok (f_n A + 1) 8 = true ->
+         alloc_ok (Z.of_nat (Datatypes.length (f_cv A))) 8 = true ->
+         alloc_ok (Z.of_nat (Datatypes.length (f_cv A))) vw = true ->
+         (0 <= r0 <= r1)%Z ->
+         (r1 <= f_n A)%Z ->
+         exists cvf cvr : list (Z * list Z),
+           sort_all (f_ptr A) (f_cv A) = Ok cvf /\
+           read_crs checked n_signed vw (write_crs A) r0 r1 =
+           Ok
+             {|
+               f_n := f_n A; f_ptr := f_ptr (slice_flat r0 r1 A); f_cv := cvr
+             |} /\
+           cvr =
+           f_cv
+             (slice_flat r0 r1
+                {| f_n := f_n A; f_ptr := f_ptr A; f_cv := cvf |}).
+Proof. exact bin_read_range_is_slice. Qed.
+Print Assumptions C19_bin_range_is_slice.
+
+Theorem C19_bin_dense_range_is_slice :
+  forall (checked n_signed : bool) (vw n m : Z) 
+           (v : list (list Z)) (r0 r1 : Z),
+         (0 < vw)%Z ->
+         (0 <= n < two63)%Z ->
+         (0 <= m < two63)%Z ->
+         Datatypes.length v = Z.to_nat (n * m) ->
+         Forall (fun g : list Z => Datatypes.length g = Z.to_nat vw) v ->
+         alloc_ok (n * m) vw = true ->
+         (0 <= r0 <= r1)%Z ->
+         (r1 <= n)%Z ->
+         read_dense checked n_signed vw (write_dense n m v) r0 r1 =
+         Ok
+           {|
+             bd_n := n;
+             bd_m := m;
+             bd_val :=
+               firstn (Z.to_nat ((r1 - r0) * m)) (skipn (Z.to_nat (r0 * m)) v)
+           |}.
+Proof. exact bin_readd_range_is_slice. Qed.
+Print Assumptions C19_bin_dense_range_is_slice.
+
+(* A4 binary: every truncation of a written file => exception *)
+Theorem C19_bin_truncated_is_error :
+  forall (checked n_signed : bool) (vw : Z) (A : flat) (k : nat),
+         (0 < vw)%Z ->
+         wf_flat A = true ->
+         f_n A = (Z.of_nat (Datatypes.length (f_ptr A)) - 1)%Z ->
+         Forall (fun e : Z * list Z => Datatypes.length (snd e) = Z.to_nat vw)
+           (f_cv A) ->
+         Forall (fun e : Z * list Z => (- two63 <= fst e < two63)%Z) (f_cv A) ->
+         alloc_ok (f_n A + 1) 8 = true ->
+         alloc_ok (Z.of_nat (Datatypes.length (f_cv A))) 8 = true ->
+         alloc_ok (Z.of_nat (Datatypes.length (f_cv A))) vw = true ->
+         k < Datatypes.length (write_crs A) ->
+         is_exception
+           (read_crs checked n_signed vw (firstn k (write_crs A)) (-1) (-1)) =
+         true.
+Proof. exact bin_truncated_is_error. Qed.
+Print Assumptions C19_bin_truncated_is_error.
+
+Theorem C19_bin_dense_truncated_is_error :
+  forall (checked n_signed : bool) (vw n m : Z) 
+           (v : list (list Z)) (k : nat),
+         (0 < vw)%Z ->
+         (0 <= n < two63)%Z ->
+         (0 <= m < two63)%Z ->
+         Datatypes.length v = Z.to_nat (n * m) ->
+         Forall (fun g : list Z => Datatypes.length g = Z.to_nat vw) v ->
+         alloc_ok (n * m) vw = true ->
+         k < Datatypes.length (write_dense n m v) ->
+         is_exception
+           (read_dense checked n_signed vw (firstn k (write_dense n m v)) 
+              (-1) (-1)) = true.
+Proof. exact bin_readd_truncated_is_error. Qed.
+Print Assumptions C19_bin_dense_truncated_is_error.
+
+(* A5 TARGET for the repaired read_crs: every byte list, every range *)
+Theorem C19_bin_read_checked_safe :
+  forall (n_signed : bool) (vw : Z) (f : list Z) (r0 r1 : Z),
+         (0 < vw)%Z ->
+         match read_crs true n_signed vw f r0 r1 with
+         | Ok A => wf_flat A = true
+         | Error e => e <> EOOB
+         end.
+Proof. exact bin_read_checked_safe. Qed.
+Print Assumptions C19_bin_read_checked_safe.
+
+(* read_dense never indexes out of bounds (current and repaired) *)
+Theorem C19_bin_readd_no_oob :
+  forall (checked n_signed : bool) (vw : Z) (f : list Z) (r0 r1 : Z),
+         read_dense checked n_signed vw f r0 r1 <> Error EOOB.
+Proof. exact bin_readd_checked_safe. Qed.
+Print Assumptions C19_bin_readd_no_oob.
+
+(* the repair does not change the result on files it accepts *)
+Theorem C19_bin_read_current_agrees_on_valid :
+  forall (n_signed : bool) (vw : Z) (f : list Z) (r0 r1 : Z) (A : flat),
+         read_crs true n_signed vw f r0 r1 = Ok A ->
+         read_crs false n_signed vw f r0 r1 = Ok A.
+Proof. exact bin_read_current_wf_input_safe. Qed.
+Print Assumptions C19_bin_read_current_agrees_on_valid.
+
+(* A5 REFUTED for the current read_crs: ptr = [0;1000;2;3] => sort_row out of bounds (ASan: heap-buffer-overflow) *)
+Theorem C19_bin_read_safe_refuted :
+  exists f : list Z, read_crs false false 8 f (-1) (-1) = Error EOOB.
+Proof. exact bin_read_safe_refuted. Qed.
+Print Assumptions C19_bin_read_safe_refuted.
+
+(* A5 refuted (current): ptr = [0;2;1;3] returned as is *)
+Theorem C19_bin_read_invalid_refuted :
+  exists (f : list Z) (A : flat),
+           read_crs false false 8 f (-1) (-1) = Ok A /\ wf_flat A = false.
+Proof. exact bin_read_invalid_refuted. Qed.
+Print Assumptions C19_bin_read_invalid_refuted.
+
+(* A5 refuted (current): n = 1, row_beg = 2: ptr.front() of an empty vector *)
+Theorem C19_bin_read_range_oob_refuted :
+  exists f : list Z,
+           read_crs false true 8 f 2 (-1) = Error EOOB /\
+           read_crs false false 8 f 2 (-1) = Error EOOB /\
+           read_crs false true 8 f 2 1 = Error EOOB /\
+           read_crs false true 8 f 3 1 = Error EAlloc /\
+           read_crs true true 8 f 2 (-1) = Error ERange.
+Proof. exact bin_read_range_oob_refuted. Qed.
+Print Assumptions C19_bin_read_range_oob_refuted.
+
+Theorem C19_bin_read_checked_rejects_witness :
+  read_crs true false 8 wit_oob (-1) (-1) = Error EFormat.
+Proof. exact bin_read_safe_refuted_checked_rejects. Qed.
+Print Assumptions C19_bin_read_checked_rejects_witness.
+
